@@ -192,15 +192,21 @@ def build_file(unit, units_by_id, prelude_text, types_text, machine_text, out_pa
     idx = pl.rfind(marker)
     head_part, tail_part = pl[:idx], pl[idx:]
     parts.append(head_part)
-    # stubs for callees
+    # stubs for callees (a callee living in the same module as the function under contract is
+    # emitted inside that module's block)
     stub_notes = []
+    same_mod_stubs = []
     for sid in unit.get("stubs", []):
         su = units_by_id[sid]
         sfn = extract_fn(su)
         ctext, _ = render_contract(sfn, su.get("stub_contract", su), True)
-        pre, _, post = wrap_item(su, "")
         attr = "#[verifier::external_body]\n"
-        parts.append(f"// assumed contract of callee {sid} (proved in its own unit)\n{pre}{attr}{ctext}\n{{ unimplemented!() }}{post}\n")
+        item = f"// assumed contract of callee {sid} (proved in its own unit)\n{attr}{ctext}\n{{ unimplemented!() }}\n"
+        if su.get("mod") and su.get("mod") == unit.get("mod") and not su.get("impl") and not unit.get("impl"):
+            same_mod_stubs.append(item)
+        else:
+            pre, _, post = wrap_item(su, "")
+            parts.append(f"{pre}{item}{post}\n")
         stub_notes.append(sid)
     for frag in unit.get("fragments", []):
         parts.append(open(os.path.join(VERIF, "verus", frag + ".rs")).read())
@@ -209,7 +215,8 @@ def build_file(unit, units_by_id, prelude_text, types_text, machine_text, out_pa
     ctext, clause_rel = render_contract(fn, unit, False)
     pre, _, post = wrap_item(unit, "")
     fattrs = "".join(a + "\n" for a in unit.get("fn_attrs", []))
-    before = "".join(parts) + f"// ===== function under contract: {unit['id']} (verbatim body from {unit['src']}) =====\n" + pre + fattrs
+    before = "".join(parts) + pre + "".join(same_mod_stubs) + \
+        f"// ===== function under contract: {unit['id']} (verbatim body from {unit['src']}) =====\n" + fattrs
     start_line = before.count("\n") + 1  # 1-based line of first contract line
     body = fn["body"]
     inj_notes = []
